@@ -4,7 +4,7 @@
    the implementation returned; exhaustive domains (all strings of a length
    over a small alphabet, behind a prefix) are enumerated here and compared by
    a polynomial fingerprint. *)
-From Coq Require Import List NArith Bool String Ascii Uint63.
+From Coq Require Import List NArith ZArith QArith Bool String Ascii Uint63.
 From T4V Require Import Base.Str Base.Cases C14.Model.
 Import ListNotations.
 Open Scope string_scope.
@@ -135,3 +135,47 @@ Definition check_fp_lines (c : N * list string * N * string * int) : bool :=
   let '(fid, alpha, n, pre, fp) := c in
   Uint63.eqb (fingerprint fid (map (fun seq => pre ++ concat "" (map (fun l => l ++ nlstr) seq))
                                    (all_seqs alpha (N.to_nat n)))) fp.
+
+(* ---- expand_data_card at exact rationals (tokens: integers) ---- *)
+Definition rd_int (t : string) : option Q :=
+  match t with
+  | String "-" r => match int_of_string r with Some n => Some (inject_Z (- Z.of_N n)) | None => None end
+  | _ => match int_of_string t with Some n => Some (inject_Z (Z.of_N n)) | None => None end
+  end.
+
+Fixpoint lin_q_from (lo step : Q) (i n : nat) : list Q :=
+  match n with
+  | O => []
+  | S m => Qred (lo + inject_Z (Z.of_nat i) * step) :: lin_q_from lo step (S i) m
+  end.
+Definition lin_q (lo hi : Q) (n : nat) : list Q :=
+  lin_q_from lo ((hi - lo) / inject_Z (Z.of_nat (S n))) 1 n.
+Definition mul_q (a b : Q) : Q := Qred (a * b).
+
+Definition ser_q (q : Q) : string :=
+  let r := Qred q in dec_Z (Qnum r) ++ "/" ++ dec (Npos (Qden r)).
+Definition ser_xerr (e : xerr) : string :=
+  sep4 ++ match e with XIndex => "XIndex" | XValue => "XValue" | XType => "XType"
+                  | XUnsupported => "XUnsupported" end.
+Definition ser_expand (r : xres (list (option Q) * nat)) : string :=
+  match r with
+  | XOk (vs, k) => ser_list (map (fun v => match v with Some q => ser_q q | None => "J" end) vs)
+                   ++ sep2 ++ dec (N.of_nat k)
+  | XErr e => ser_xerr e
+  end.
+
+Definition expand_q (expected : option nat) (ts : list string) : string :=
+  ser_expand (expand Q rd_int lin_q mul_q expected ts).
+
+Definition fingerprint_l (f : list string -> string) (inputs : list (list string)) : int :=
+  fold_left (fun acc ts => ((acc * 1000003 + hstr (f ts) (hstr (concat " " ts) 7)) mod MODULUS)%uint63)
+            inputs 0%uint63.
+
+(* case: (token alphabet, number of free tokens, leading tokens, expected, fingerprint) *)
+Definition check_fp_expand (c : list string * N * list string * option N * int) : bool :=
+  let '(alpha, n, pre, expected, fp) := c in
+  Uint63.eqb (fingerprint_l (expand_q (option_map N.to_nat expected))
+                (map (fun seq => pre ++ seq)%list (all_seqs alpha (N.to_nat n)))) fp.
+
+Definition check_expand (c : option N * list string * string) : bool :=
+  let '(expected, ts, out) := c in String.eqb (expand_q (option_map N.to_nat expected) ts) out.
